@@ -62,3 +62,44 @@ def colifilt [Add α] [Mul α] [OfNat α 0] (ha hb : List α) (highpass : Bool) 
 
 end Spec
 end WV
+
+/-! ### the reference forward pyramid (`dtcwt.numpy.Transform2d.forward`), one channel
+
+The reference filters the COLUMNS first (`Lo = colfilter(X, h0o).T`), then the rows; odd sizes are extended by a
+repeated row / column, and from level 2 on the low-pass is padded to a multiple of 4 with a repeated border.  The
+`highpass` flags of `coldfilt` are written explicitly (the reference derives them from the sign of `Σ ha·hb`). -/
+namespace WV
+namespace Spec
+variable {α : Type}
+
+def refLevel1 [Add α] [Sub α] [Mul α] [OfNat α 0] (s : α) (h0o h1o : List α) (x : Img α) : Img α × List (Cplx α) :=
+  let Lo := alongH (colfilter h0o) x
+  let Hi := alongH (colfilter h1o) x
+  (alongW (colfilter h0o) Lo,
+   highsToOrientations s (alongW (colfilter h0o) Hi) (alongW (colfilter h1o) Lo) (alongW (colfilter h1o) Hi))
+
+def refLevel2 [Add α] [Sub α] [Mul α] [OfNat α 0] (s : α) (h0a h0b h1a h1b : List α) (x : Img α) : Img α × List (Cplx α) :=
+  let Lo := alongH (coldfilt h0b h0a false) x
+  let Hi := alongH (coldfilt h1b h1a true) x
+  (alongW (coldfilt h0b h0a false) Lo,
+   highsToOrientations s (alongW (coldfilt h0b h0a false) Hi) (alongW (coldfilt h1b h1a true) Lo)
+     (alongW (coldfilt h1b h1a true) Hi))
+
+/-- levels 2 … : `n` more levels from the low-pass `low` -/
+def refLoop [Add α] [Sub α] [Mul α] [OfNat α 0] (s : α) (h0a h0b h1a h1b : List α) :
+    Nat → Img α → Img α × List (List (Cplx α))
+  | 0, low => (low, [])
+  | n+1, low =>
+    let r1 := refLevel2 s h0a h0b h1a h1b (extendMult4 low)
+    let r := refLoop s h0a h0b h1a h1b n r1.1
+    (r.1, r1.2 :: r.2)
+
+/-- `Transform2d.forward(x, nlevels = n+1)`: final low-pass and the six complex bands of every level, finest first -/
+def refForward [Add α] [Sub α] [Mul α] [OfNat α 0] (s : α) (h0o h1o h0a h0b h1a h1b : List α) (n : Nat) (x : Img α) :
+    Img α × List (List (Cplx α)) :=
+  let r1 := refLevel1 s h0o h1o (extendEven x)
+  let r := refLoop s h0a h0b h1a h1b n r1.1
+  (r.1, r1.2 :: r.2)
+
+end Spec
+end WV
